@@ -478,7 +478,7 @@ def run_tcp_case(parts, profile="debug"):
         raise last
 
     first = events[0][0] if events else 0
-    if first != 3:
+    if first not in (3, 8):
         srv = listen()
     proc = subprocess.Popen([exe, "-t", "127.0.0.1:%d" % port] + args, stdout=subprocess.PIPE, stderr=subprocess.PIPE)
     t_last = time.time()
@@ -486,11 +486,11 @@ def run_tcp_case(parts, profile="debug"):
     outcome = "ok"
     try:
         for typ, data in events:
-            if typ == 3:
+            if typ in (3, 8):
                 if srv is not None:
                     srv.close()
                     srv = None
-                time.sleep(1.2)          # the client's attempt is refused meanwhile
+                time.sleep(1.2 if typ == 3 else 162.0)   # the client's attempts are refused meanwhile (8: a long outage)
                 srv = listen()
                 t_ref = time.time()
                 continue
